@@ -111,14 +111,14 @@ class Run:
         if using is None:
             facts = [f for (_, _, f) in self.facts]
         else:
-            # "@depth=N" in `using`: unfold definitions only N rounds, starting from the goal alone (the listed facts are taken as they are)
+            # "@depth=N" in `using`: unfold definitions only N rounds, starting from the goal and the listed facts
             for u in using:
                 if isinstance(u, str) and u.startswith("@depth="):
                     depth = int(u.split("=")[1])
             plain = {u[1:] if isinstance(u, str) and u.startswith("~") else u for u in using}
             facts = [f for (tag, lab, f) in self.facts if lab in plain or tag in plain]
         if depth is not None:
-            return facts + self.closure([goal] if goal is not None else [], depth)
+            return facts + self.closure(([goal] if goal is not None else []) + list(facts), depth)
         base = list(facts) + ([goal] if goal is not None else [])
         return facts + self.closure(base)
 
